@@ -66,7 +66,7 @@ def rule_owned_operands(ctx, chk, L, rid):
                                 "(another thread can replace the order before it is removed)" % (op, short(operand), role, bad and bad[1]),
                                 describe_path(r))
             for kind, o, e in qev:
-                if kind in ("push", "park"):
+                if kind in ("push", "park", "rpush"):
                     n += 1
                     bad = borrowed_origin(r, o)
                     chk.require(bad is None, rid, "%s:%s:published" % (b.defp, arm), e[5],
@@ -124,8 +124,8 @@ def rule_order_of_updates(ctx, chk, L, rid_raise, rid_lower):
                 ids = set(pos)
                 cev = [c for c in L.counter_events(r.trace) if id(c[3]) in ids]
                 qev = [x for x in L.queue_events(r.trace, r.facts) if id(x[2]) in ids]
-                pushes = [pos[id(e)] for k, o, e in qev if k == "push"]
-                takes = [pos[id(e)] for k, o, e in qev if k in ("take", "unpark")]
+                pushes = [pos[id(e)] for k, o, e in qev if k in ("push", "rpush")]
+                takes = [pos[id(e)] for k, o, e in qev if k in ("take", "unpark", "rtake")]
                 first_push = min(pushes) if pushes else None
                 first_take = min(takes) if takes else None
                 for role, op, operand, e in cev:
@@ -149,7 +149,7 @@ def rule_bounded_decrements(ctx, chk, L, rid):
             arm = arm_of(r)
             for segname, lo, hi in segments(r):
                 d, q, cev, qev, other = L.deltas(r.trace, r.facts, lo, hi)
-                taken = [o for k, o, _ in qev if k in ("take", "unpark")]
+                taken = [o for k, o, _ in qev if k in ("take", "unpark", "rtake")]
                 for role, op, operand, e in cev:
                     if op != "fetch_sub":
                         continue
@@ -247,7 +247,7 @@ def rule_removal_returns(ctx, chk, L, rid, rid_notfound, seq=False):
         qev = L.queue_events(r.trace, r.facts)
         removes = [(k, o, e) for k, o, e in qev if e[1] == "Q.remove"]
         finds = [(k, o, e) for k, o, e in qev if e[1] == "Q.find"]
-        pushes = [(k, o, e) for k, o, e in qev if k in ("push", "park")]
+        pushes = [(k, o, e) for k, o, e in qev if k in ("push", "park", "rpush")]
         if vv == "Ok":
             inner = dict(v[3])["0"]
             iv = inner[2] if isinstance(inner, tuple) and inner[0] == "agg" else r.facts.variant.get(inner)
@@ -280,7 +280,7 @@ def rule_removal_returns(ctx, chk, L, rid, rid_notfound, seq=False):
                                 "removes id %s, not the update's own order id" % short(idt), describe_path(r))
         elif vv == "Err":
             ups = [c for c in L.counter_events(r.trace) if c[1] != "load"]
-            qmut = [x for x in qev if x[0] in ("push", "take", "take?", "park")]
+            qmut = [x for x in qev if x[0] in ("push", "take", "take?", "park", "rtake", "rpush")]
             chk.require(not ups and not qmut, rid_notfound, "%s:%s:err-no-effect" % (b.defp, arm), b.span,
                         "an error answer is accompanied by effects", describe_path(r))
             seen.setdefault(arm, set()).add("err")
@@ -404,3 +404,28 @@ def rule_no_remove_then_push_in_extras(ctx, chk, L, rid):
                      describe_path(r) if r else None)
         else:
             chk.ok(rid, "%s:remove-then-push" % b.defp, b.span)
+
+
+def rule_inplace_same_id(ctx, chk, L, rid):
+    """an in-place replacement (locked map entry overwritten) keeps the order's id: otherwise the entry's key and the
+    id of the order stored under it disagree, and lookups / cancels by id hit the wrong order"""
+    n = 0
+    for name in L.mutators():
+        b, res, _ = L.paths(name)
+        for r in res:
+            if r.kind not in ("return", "backedge"):
+                continue
+            qev = L.queue_events(r.trace, r.facts)
+            cur = None
+            for k, o, e in qev:
+                if k == "rtake":
+                    cur = o
+                elif k == "rpush":
+                    n += 1
+                    ok = cur is not None and same_id(L.R, cur, o, r.facts)
+                    chk.require(ok, rid, "%s:%s:inplace-same-id" % (b.defp, first_label(r)), e[5] or b.span,
+                                "the order stored into a locked map entry does not provably have the id of the order it replaces", describe_path(r))
+                elif k == "raw":
+                    chk.fail(rid, "%s:raw-container-op:%s" % (b.defp, e[1]), e[5] or b.span,
+                             "a level mutator reaches %s on the queue's containers through a queue method the level rules have no summary for" % e[1], describe_path(r))
+    return n
